@@ -11,13 +11,13 @@ def parse_bytes1(s):
     if s == '-':
         return b''
     if s[0] == '@':
-        a, b = s[1:].split(':')
+        a, b = s[1:].split('~')
         return bytes(pat_byte(int(a), i) for i in range(int(b)))
     if s[0] == '=':
-        a, b = s[1:].split(':')
+        a, b = s[1:].split('~')
         return bytes([int(a, 16)]) * int(b)
     if s[0] == '%':
-        a, b, c = s[1:].split(':')
+        a, b, c = s[1:].split('~')
         return bytes(pat_byte(int(a), i % int(c)) for i in range(int(b)))
     return bytes.fromhex(s)
 
